@@ -35,7 +35,9 @@ def main():
                 else:
                     names = {i.name for i in s.get_inputs()} | {i.name for i in s.get_overridable_initializers()}
                     r = s.run(None, {k: v for k, v in msg[2].items() if k in names})
-                    res = ("ok", r)
+                    nbytes = sum(getattr(x, "nbytes", 0) for x in r)
+                    # (a result of hundreds of MB - shapes computed from data - would take minutes to pickle through the pipe)
+                    res = ("ok", r) if nbytes <= 64 * 1024 * 1024 else ("err", f"ResultTooLarge: {nbytes} bytes of outputs (not transferred)")
             elif msg[0] == "drop":
                 sessions.pop(msg[1], None)
                 continue
